@@ -1,16 +1,21 @@
 /-
   C18 at TEXT level: parsing under the token lists of GithubWikiRenderer / MathJaxRenderer /
   TocRenderer / PygmentsRenderer gives the same document as parsing under HtmlRenderer's lists when
-  the text does not use the extension (no "[[" resp. no '$').
+  the text does not use the extension (no "[[" resp. no '$'; Toc and Pygments install no token).
 
   Part 1  `findOne_githubWiki_nil`, `findOne_math_nil`: the extension's `find` returns nothing.
-  Part 2  the span resolver never reads `Cand.cls` (`tokenize_strip`, `builds_strip`), hence
-          `tokenizeInner` depends on the token list only through `findAll`
-          (`tokenizeInner_congr`), hence `tokenizeInner_insert`.
-  Part 3  `mkBlocks_congr` / `parseLines_insert_buf` (hypothesis on the parse buffer), the invariant
-          `LineInv` threaded through the block phase (`blockPhase_inv`), and `parse_insert`.
-  Part 4  the two instances (no '$' / no "[["), the regenerated configurations and the final theorems.
-  Part 5  non-vacuity.
+  Part 2  the span resolver never reads `Cand.cls` (`tokenize_strip`) and `build` looks matches up by
+          `ord` (`builds_strip`), hence `tokenizeInner` depends on the token list only through `findAll`
+          (`tokenizeInner_eq`, `tokenizeInner_congr`), hence `tokenizeInner_insert`.
+  Part 3  `LineInv Q R`: closure properties of a predicate `Q` on lines and `R` on inline texts;
+          `blockPhase_inv` (simultaneous induction over `gas`): every line of the parse buffer that
+          reaches the inline phase satisfies `Q`, every heading content `R`, at every nesting depth;
+          `mkBlocks_congr`, `parseLines_congr_buf` (hypothesis on the parse buffer), `parse_insert`.
+  Part 4  the two instances (`noD_inv`: no '$'; `wq_inv`: no "[[" and no line ending in '['), the lines of
+          a text (`normalize_noD`, `normalize_wq`), `parse_insert_math`, `parse_insert_githubWiki`,
+          the regenerated configurations (`C18_lists`, decided on Gen/RenderMaps) and the final theorems
+          `C18_{githubwiki,mathjax,toc,pygments}_same_{text,output}`, `supported_pygments`.
+  Part 5  non-vacuity (kernel-evaluated), an example WITH "[[a|b]]" / "$x$" where the parses differ.
 -/
 import Mistletoe.Model.Config
 import Mistletoe.Proofs.Block
@@ -1748,7 +1753,7 @@ theorem supportedInline_pyg (o : Opts) : ∀ (i : Inline),
   | .lineBreak .. => rfl
   | .htmlSpan _ => rfl
   | .math _ => rfl
-  | .githubWiki _ k => by simp [supportedInline]
+  | .githubWiki _ k => by simp only [supportedInline]; rfl
   | .xwikiMacroStart _ => rfl
   | .xwikiMacroEnd _ => rfl
   | .linkRefDef .. => rfl
@@ -1840,38 +1845,50 @@ theorem supported_pygments (o : Opts) (d : Doc) :
 
 /-! ## Part 5: non-vacuity -/
 
-/-- emphasis, a link, a table with emphasis and raw HTML in a cell, an HTML block, strong, inline code,
-    an unmatched '[' — no "[[" and no '$' -/
-def sample : Str :=
-  "# T *a* [l](u)\n\n| a | b |\n|---|---|\n| *c* | <b>d</b> |\n\n<div>x</div>\n\np **s** `c` [x\n".toList
+/-- emphasis, a link, raw HTML, an unmatched '[', a table with emphasis and inline code in its cells —
+    no "[[" and no '$' -/
+def sample : Str := "*a* [l](u) <b>d</b> [x\n\n|a|b|\n|-|-|\n|*c*|`d`|\n".toList
+
+/-- the expected output, as a character list (string literals are slow in the kernel):
+    `<p><em>a</em> <a href="u">l</a> <b>d</b> [x</p>`, then the table with `<em>c</em>` and `<code>d</code>` cells -/
+def sampleHtml : Str :=
+  ['<', 'p', '>', '<', 'e', 'm', '>', 'a', '<', '/', 'e', 'm', '>', ' ', '<', 'a', ' ', 'h', 'r', 'e', 'f', '=', '"', 'u', '"', '>', 'l', '<', '/', 'a', '>', ' ', '<', 'b', '>', 'd', '<', '/', 'b', '>', ' ', '[', 'x', '<', '/', 'p', '>', '\n',
+   '<', 't', 'a', 'b', 'l', 'e', '>', '\n',
+   '<', 't', 'h', 'e', 'a', 'd', '>', '\n',
+   '<', 't', 'r', '>', '\n',
+   '<', 't', 'h', ' ', 'a', 'l', 'i', 'g', 'n', '=', '"', 'l', 'e', 'f', 't', '"', '>', 'a', '<', '/', 't', 'h', '>', '\n',
+   '<', 't', 'h', ' ', 'a', 'l', 'i', 'g', 'n', '=', '"', 'l', 'e', 'f', 't', '"', '>', 'b', '<', '/', 't', 'h', '>', '\n',
+   '<', '/', 't', 'r', '>', '\n',
+   '<', '/', 't', 'h', 'e', 'a', 'd', '>', '\n',
+   '<', 't', 'b', 'o', 'd', 'y', '>', '\n',
+   '<', 't', 'r', '>', '\n',
+   '<', 't', 'd', ' ', 'a', 'l', 'i', 'g', 'n', '=', '"', 'l', 'e', 'f', 't', '"', '>', '<', 'e', 'm', '>', 'c', '<', '/', 'e', 'm', '>', '<', '/', 't', 'd', '>', '\n',
+   '<', 't', 'd', ' ', 'a', 'l', 'i', 'g', 'n', '=', '"', 'l', 'e', 'f', 't', '"', '>', '<', 'c', 'o', 'd', 'e', '>', 'd', '<', '/', 'c', 'o', 'd', 'e', '>', '<', '/', 't', 'd', '>', '\n',
+   '<', '/', 't', 'r', '>', '\n',
+   '<', '/', 't', 'b', 'o', 'd', 'y', '>', '\n',
+   '<', '/', 't', 'a', 'b', 'l', 'e', '>', '\n']
 
 example : isInfix ['[', '['] sample = false ∧ '$' ∉ sample := by decide +kernel
 
-/-- kernel evaluation: the three renderers' models return HtmlRenderer's output (+ the script line), and it
-    is the expected HTML -/
-example :
-    Config.renderHtml {} 200 sample = some
-      ("<h1>T <em>a</em> <a href=\"u\">l</a></h1>\n<table>\n<thead>\n<tr>\n<th align=\"left\">a</th>\n<th align=\"left\">b</th>\n</tr>\n</thead>\n<tbody>\n<tr>\n<td align=\"left\"><em>c</em></td>\n<td align=\"left\"><b>d</b></td>\n</tr>\n</tbody>\n</table>\n<div>x</div>\n<p>p <strong>s</strong> <code>c</code> [x</p>\n").toList ∧
-    Config.renderContrib Config.githubWiki { flavor := .githubWiki } 200 sample = Config.renderHtml {} 200 sample ∧
-    Config.renderContrib Config.toc { flavor := .toc } 200 sample = Config.renderHtml {} 200 sample ∧
-    Config.renderContrib Config.mathjax { flavor := .mathjax } 200 sample =
-      (Config.renderHtml {} 200 sample).map (· ++ Gen.RenderMaps.mathjaxSrc) := by decide +kernel
+/-- kernel evaluation: the models of the three renderers return HtmlRenderer's output (+ the script line) -/
+example : Config.renderHtml {} 200 sample = some sampleHtml := by decide +kernel
+example : Config.renderContrib Config.githubWiki { flavor := .githubWiki } 200 sample = some sampleHtml := by
+  decide +kernel
+example : Config.renderContrib Config.toc { flavor := .toc } 200 sample = some sampleHtml := by decide +kernel
+example : Config.renderContrib Config.mathjax { flavor := .mathjax } 200 sample =
+    some (sampleHtml ++ Gen.RenderMaps.mathjaxSrc) := by decide +kernel
 
 /-- the theorems applied to the sample: the parses under the three configurations are equal -/
 example : ∃ cH cW cM cT, Config.html = some cH ∧ Config.githubWiki = some cW ∧ Config.mathjax = some cM ∧
     Config.toc = some cT ∧
     Document.parse cW 200 sample = Document.parse cH 200 sample ∧
     Document.parse cM 200 sample = Document.parse cH 200 sample ∧
-    Document.parse cT 200 sample = Document.parse cH 200 sample ∧
-    (Document.parse cH 200 sample).isOk = true := by
+    Document.parse cT 200 sample = Document.parse cH 200 sample := by
   obtain ⟨cH, cW, cM, cT, _, hH, hW, hM, hT, _⟩ := configs_some
-  refine ⟨cH, cW, cM, cT, hH, hW, hM, hT,
+  exact ⟨cH, cW, cM, cT, hH, hW, hM, hT,
     C18_githubwiki_same_text cW cH hW hH 200 sample (by decide +kernel),
     C18_mathjax_same_text cM cH hM hH 200 sample (by decide +kernel),
-    C18_toc_same_text cT cH hT hH 200 sample, ?_⟩
-  have h : (Config.html.map (fun c => (Document.parse c 200 sample).isOk)) = some true := by decide +kernel
-  rw [hH] at h
-  simpa using h
+    C18_toc_same_text cT cH hT hH 200 sample⟩
 
 /-- WITH the extension the parses differ: "[[a|b]]" is a GithubWiki token under GithubWikiRenderer's lists -/
 def wikiSample : Str := "x [[a|b]] y\n".toList
@@ -1892,11 +1909,6 @@ example : ∀ cW cH, Config.githubWiki = some cW → Config.html = some cH →
 example : Config.renderContrib Config.mathjax { flavor := .mathjax } 50 "a $x$ b\n".toList =
       some ("<p>a \\(x\\) b</p>\n".toList ++ Gen.RenderMaps.mathjaxSrc) ∧
     Config.renderHtml {} 50 "a $x$ b\n".toList = some "<p>a $x$ b</p>\n".toList := by decide +kernel
-
-/-- the span resolver ignores the class index: a nested candidate set, relabelled -/
-example : Span.tokenize [⟨0, 9, 2, 7, 3, true, 4, 0⟩, ⟨3, 6, 4, 5, 3, true, 4, 1⟩, ⟨1, 3, 1, 3, 5, false, 1, 2⟩] 10 =
-    [.tok ⟨0, 9, 2, 7, 3, true, 4, 0⟩ [.raw 2 3, .tok ⟨3, 6, 4, 5, 3, true, 4, 1⟩ [.raw 4 5], .raw 6 7], .raw 9 10] := by
-  decide +kernel
 
 /-- the hypotheses of `tokenizeInner_insert` hold for a string with brackets but no "[[" -/
 example : tokenizeInner ([.escapeSequence] ++ .githubWiki :: [.coreTokens, .inlineCode]) [] "[a] *b*".toList =
